@@ -43,12 +43,14 @@ func (cc *AdaptedClientConn) Close() {
 		return
 	}
 
-	_ = state.conn.Close() // doesn't return any meaningful errors
-
+	// Publish the closed state before actually closing the connection,
+	// so that anyone who sees the connection shut down also finds the error to report.
 	cc.state.Store(&adaptedClientState{
 		conn: nil,
 		err:  status.Error(codes.Unavailable, "grpcbridge: connection closed"),
 	})
+
+	_ = state.conn.Close() // doesn't return any meaningful errors
 }
 
 func (cc *AdaptedClientConn) Stream(ctx context.Context, method string) (ClientStream, error) {
@@ -92,6 +94,9 @@ func (cc *AdaptedClientConn) getConn(ctx context.Context) (*grpc.ClientConn, err
 		// when the service has just started or when some random error occurs.
 		// After waiting still try to use the connection to at least get a readable error describing the failure.
 		cc.waitForReady(ctx, state.conn)
+
+		// The connection might have been closed while waiting.
+		state = cc.state.Load()
 	}
 
 	return state.conn, state.err
@@ -112,7 +117,9 @@ func (*AdaptedClientConn) waitForReady(ctx context.Context, conn *grpc.ClientCon
 		conn.Connect()
 	}
 
-	for connState != connectivity.Ready {
+	// A connection which has been shut down never changes its state again,
+	// waiting for it would block a call without a deadline forever.
+	for connState != connectivity.Ready && connState != connectivity.Shutdown {
 		if !conn.WaitForStateChange(ctx, connState) {
 			return
 		}
